@@ -58,8 +58,38 @@ def form_check(cfg, sd, inp_name):
         # (inherited attributes pushed down as new shared indirect objects) come into being after the eligible set
         # was computed and are written uncompressed; the clause is therefore required of non-linearized output only
         # (observation recorded in DESIGN.md, not claimed as a violation: "eligible" is qpdf's notion).
-        for og, v in (sd.objs.items() if not lin else []):
-            if sd.where[og][0] != "n" or isinstance(v, Stream):
+        # Linearized output: the catalog, the page objects and the linearization parameter dictionary are exempt (property text),
+        # and so are the objects that hold an inherited page attribute pushed down from a /Pages node (see above): they are
+        # recognised independently of qpdf as the indirect values of the inheritable keys of the page objects.
+        pushed = set()
+        if lin:
+            for pv in sd.objs.values():
+                if isinstance(pv, dict) and pv.get(b"Type") == Name(b"Page"):
+                    for ik in (b"Resources", b"MediaBox", b"CropBox", b"Rotate"):
+                        if isinstance(pv.get(ik), Ref):
+                            pushed.add((pv[ik].n, pv[ik].g))
+        # eligibility, stated independently of qpdf's walk: the objects reachable from the output's trailer through any dictionary
+        # value, array element or stream dictionary (an object nothing refers to, such as the copy of the input's encryption
+        # dictionary that a linearized rewrite of an encrypted input carries along, is not "eligible" by this statement)
+        reach, todo = set(), [sd.trailer]
+        while todo:
+            x = todo.pop()
+            if isinstance(x, Ref):
+                if (x.n, x.g) in reach or (x.n, x.g) not in sd.objs:
+                    continue
+                reach.add((x.n, x.g))
+                x = sd.objs[(x.n, x.g)]
+            if isinstance(x, Stream):
+                x = x.d
+            if isinstance(x, dict):
+                todo.extend(x.values())
+            elif isinstance(x, list):
+                todo.extend(x)
+        for og, v in sd.objs.items():
+            if sd.where[og][0] != "n" or isinstance(v, Stream) or og not in reach:
+                continue
+            if lin and (og in pushed or (isinstance(root, Ref) and og == (root.n, root.g))
+                        or (isinstance(v, dict) and (v.get(b"Type") == Name(b"Page") or b"Linearized" in v))):
                 continue
             if isinstance(enc, Ref) and og == (enc.n, enc.g):
                 continue
@@ -169,6 +199,41 @@ def arith_tie(runner, sd, path, cfg):
     return diffs
 
 
+def stream_cases_doc(rng):
+    """two pages; streams whose /Filter and /DecodeParms are indirect objects (name, dictionary, arrays whose elements are indirect
+    again), as page content and as other streams; empty streams of every kind"""
+    import zlib
+    from pdfgen import D, Str
+    N_ = Name
+    d = pdfgen.page_doc(2, marker="C")
+    text = lambda k: ("BT /F1 12 Tf 72 %d Td (case %d) Tj ET\n" % (700 - 20 * k, k)).encode()
+    # page 1: Flate content stream with an indirect /DecodeParms dictionary, followed by an empty stream in the /Contents array
+    parms = d.add(D(Predictor=1))
+    cs1 = d.add(Stream({b"Filter": N_(b"FlateDecode"), b"DecodeParms": parms}, zlib.compress(text(1))))
+    empty_in_array = d.add(Stream({}, b""))
+    # page 2 is blank: its content stream is empty
+    blank = d.add(Stream({}, b""))
+    pages = [n for n, o in sorted(d.objects.items()) if isinstance(o, dict) and o.get(b"Type") == N_(b"Page")]
+    d.objects[pages[0]][b"Contents"] = [cs1, empty_in_array]
+    d.objects[pages[1]][b"Contents"] = blank
+    # other streams, hung from the first page's resources and from the catalog
+    flt_name = d.add(N_(b"FlateDecode"))
+    s_indirect_filter = d.add(Stream({b"Filter": flt_name}, zlib.compress(text(2))))
+    inner = d.add(D(Predictor=1))
+    s_arrays = d.add(Stream({b"Filter": d.add([N_(b"FlateDecode")]), b"DecodeParms": d.add([inner])}, zlib.compress(text(3))))
+    s_elems = d.add(Stream({b"Filter": [d.add(N_(b"ASCIIHexDecode")), N_(b"FlateDecode")], b"DecodeParms": [None, d.add(D(Predictor=1))]},
+                           zlib.compress(text(4)).hex().encode() + b">"))
+    empty_form = d.add(Stream({b"Type": N_(b"XObject"), b"Subtype": N_(b"Form"), b"BBox": [0, 0, 1, 1]}, b""))
+    empty_after_decoding = d.add(Stream({b"Filter": N_(b"FlateDecode")}, zlib.compress(b"")))
+    empty_hex = d.add(Stream({b"Filter": N_(b"ASCIIHexDecode")}, b">"))
+    d.objects[pages[0]][b"Resources"] = {b"Font": d.objects[pages[0]][b"Resources"][b"Font"], b"XObject": {b"Fm0": empty_form}}
+    others = [s_indirect_filter, s_arrays, s_elems, empty_after_decoding, empty_hex, d.add(Stream({b"Marker": 1}, b""))]
+    rng.shuffle(others)
+    d.objects[1][b"Extras"] = others
+    d.trailer[b"Info"] = d.add(D(Title=Str(b"stream cases")))
+    return d
+
+
 def build_inputs(chk, wd):
     rng = chk.rng
     quick = chk.tier == "quick"
@@ -177,10 +242,22 @@ def build_inputs(chk, wd):
         p = os.path.join(wd, name + ".pdf")
         open(p, "wb").write(data)
         inputs.append((name, p, "generated"))
-    for name, data, doc in filecheck.gen_docs(rng, 3 if quick else 12, big=True):
+    # (quick tier: two documents; the exact counts 99/100/101/200/201 are hit deterministically by the eligible-count inputs below and
+    #  by the byte-exact part, and the extracted reader inflates a compressed object stream once per member, which makes these the
+    #  most expensive outputs to read)
+    for name, data, doc in filecheck.gen_docs(rng, 2 if quick else 12, big=True):
         p = os.path.join(wd, "big" + name + ".pdf")
         open(p, "wb").write(data)
         inputs.append(("big" + name, p, "generated-100-boundary"))
+    # stream parameters held in indirect objects (they survive whenever the writer keeps the stream as it is) and empty streams
+    # (0 bytes before filtering; 0 bytes after decoding; an empty element of a /Contents array; an empty form XObject), in every
+    # writer configuration: the eligibility walk must follow /Filter and /DecodeParms, and /Length must be exact for empty data
+    # under every encryption scheme
+    for i in range(1 if quick else 4):
+        d = stream_cases_doc(rng)
+        p = os.path.join(wd, "streamcases%d.pdf" % i)
+        open(p, "wb").write(pdfgen.write_classic(d, with_id=(b"0123456789abcdef", b"fedcba9876543210"))[0])
+        inputs.append(("streamcases%d" % i, p, "stream-cases"))
     # relabelled header: object streams under a pre-1.5 header (read without warning by qpdf)
     for i, (name, p, kind) in enumerate(list(inputs[:2 if quick else 6])):
         q = os.path.join(wd, "relabel%d.pdf" % i)
@@ -243,6 +320,14 @@ def run(chk):
     quick = chk.tier == "quick"
     runner = os.path.join(common.EXTRACT, "model_runner")
     wd = common.workdir("C02")
+    import time
+    t_last = [time.time()]
+    phases = chk.cov.setdefault("phase_seconds", {})
+
+    def phase(name):
+        now = time.time()
+        phases[name] = round(phases.get(name, 0) + now - t_last[0], 1)
+        t_last[0] = now
     chk.cov["rule"] = ("(input, writer configuration) pairs: generated documents (object model with every scalar kind, 90..260 extra objects around the "
                        "100-member boundary), one-page documents padded so that offsets straddle 2^16 around the linearization hint stream, inputs whose "
                        "header is relabelled below 1.5, repository corpus files incl. the recovered-trailer ones; each written by the real qpdf and read by "
@@ -253,9 +338,12 @@ def run(chk):
     # ---- byte-exact correspondence of the extracted object-stream / xref-stream writer model (harness/c02xs.py)
     import c02xs
     c02xs.run_part(chk, wd, runner)
+    phase("xs-byte-exact")
     # the source -> Gallina translation of the leaf functions (bytesNeeded, ...) against the compiled source text
     leafcheck.run_part(chk)
+    phase("leaf-translation")
     inputs = build_inputs(chk, wd)
+    phase("build-inputs")
     cfgs = filecheck.CONFIGS_QUICK
     jobs = []
     for name, p, kind in inputs:
@@ -265,6 +353,10 @@ def run(chk):
         elif kind == "preserved-big-objstm":
             use = [["--object-streams=preserve"], ["--object-streams=preserve", "--compress-streams=n"], ["--qdf", "--object-streams=preserve"],
                    ["--object-streams=preserve", "--linearize"]]
+            if quick and name not in ("members256", "members257"):
+                # away from the one-byte / two-byte index boundary the compressed variants (slow to read: one inflate per member) are left
+                # to the thorough tier
+                use = [["--object-streams=preserve", "--compress-streams=n"], ["--qdf", "--object-streams=preserve"]]
         for cfg in use:
             jobs.append((name, p, kind, cfg))
     # boundary sweep aimed at field-width changes around 2^16 (first-page xref stream of a linearized file)
@@ -284,8 +376,10 @@ def run(chk):
         rc, se = filecheck.run_write(p, cfg, out)
         return rc, se, out
     res = common.par_map(runjob, range(len(jobs)))
+    phase("writes")
     done = [(i, rc, out) for i, (rc, se, out) in enumerate(res) if rc in (0, 3) and os.path.exists(out) and os.path.getsize(out) <= MAXSIZE]
     sr = filecheck.strict_read([o for _, _, o in done])
+    phase("strict-read")
     nontriv = set()
     kinds = {}
     tie_diffs = []
@@ -328,6 +422,7 @@ def run(chk):
             chk.violation({"kind": "property-fails-on-implementation", "why": "qpdf --check of its own output is not clean", "input": p,
                            "argv": ["qpdf", "--static-id"] + c + [p, "out.pdf"], "check_exit": rc, "stderr": se.decode("latin-1")[-300:]})
     # ---- outputs around 2^24 bytes (too large for the extracted reader): Python-side structural oracle + the arithmetic model
+    phase("form+arith+recheck")
     big_jobs = []
     for target in ([2 ** 24] if quick else [2 ** 24, 2 ** 24 + 2 ** 16]):
         for delta in ((-2000, 3000) if quick else (-4000, -2000, -300, 300, 3000)):
@@ -354,6 +449,7 @@ def run(chk):
     for p in set(j[0] for j in big_jobs):
         os.unlink(p)
     chk.count("outputs-around-2^24", len(big_jobs), nbig, samples=[{"sizes_above_2^24": sum(1 for x in nbig if x[2]), "below": sum(1 for x in nbig if not x[2])}])
+    phase("outputs-around-2^24")
     if tie_diffs:
         chk.violation({"kind": "correspondence-broken", "correspondence": "corr:C02:writer-arithmetic", "differing_cases": len(tie_diffs),
                        "first_cases": tie_diffs[:3]}, no_input=True)
